@@ -270,7 +270,8 @@ class OMachine(Machine):
                     ty = p.get('ty', '')
                     if ty.rstrip().endswith('&') and not ty.lstrip().startswith('const'):
                         t = strip_casts(x)
-                        if t.get('k') in ('Ref', 'Member') and p['id'] in sub.env:
+                        lval = t.get('k') in ('Ref', 'Member', 'Index') or (t.get('k') == 'OpCall' and t.get('op') == '[]') or (t.get('k') == 'Un' and t.get('op') == '*')
+                        if lval and p['id'] in sub.env and not isinstance(sub.env[p['id']], (Obj, Vec)):
                             try:
                                 self.assign(t, sub.env[p['id']])
                             except Unsupported:
@@ -335,11 +336,22 @@ class OMachine(Machine):
             return 0
         if n == 'resize':
             sz = int(self.ev(a[0]))
-            fill = self.ev(a[1]) if len(a) > 1 else 0
             if sz < len(v.items):
                 del v.items[sz:]
-            else:
+            elif len(a) > 1:
+                fill = self.ev(a[1])
                 v.items.extend([fill] * (sz - len(v.items)))
+            else:
+                # value-initialised elements: what they are follows from the element type of the vector
+                cls = c.get('cls') or ''
+                inner = cls[cls.index('<') + 1:] if '<' in cls else ''
+                for _ in range(sz - len(v.items)):
+                    if inner.lstrip().startswith(('xalanc_1_12::XalanVector', 'XalanVector')):
+                        v.items.append(Vec([]))
+                    elif 'XalanDOMString' in inner.split(',')[0]:
+                        v.items.append('')
+                    else:
+                        v.items.append(0)
             return 0
         raise Unsupported('vector method ' + n)
 
